@@ -95,6 +95,7 @@ func rulesSpec(prop string) func(tier, scenario string) seqx.Spec {
 		switch prop {
 		case "C05":
 			depth, maxFault = 5, 0 // counted from the state in which both peers are associated (see New below)
+			dl = 170 * time.Second
 		case "C08":
 			depth, maxFault = 4, 0
 		}
